@@ -1226,6 +1226,31 @@ func ruleMuxReuse(r *Run) {
 			other = true
 		}
 	}
+	if fromOpt && !fresh && !other {
+		// the other sound shape: the option's own field is served, created in place when it is still nil
+		// (func (o *serverOptions) httpMux() *http.ServeMux { if o.serveMux == nil { o.serveMux = http.NewServeMux() }; return o.serveMux })
+		for _, st := range p.storesToField(nil, "serverOptions", "serveMux") {
+			inRegion := false
+			for _, g := range p.region(fn) {
+				if g == st.Parent() {
+					inRegion = true
+				}
+			}
+			c, isNew := st.Val.(*ssa.Call)
+			if !inRegion || !isNew || calleeName(c) != "net/http.NewServeMux" {
+				continue
+			}
+			for _, g := range guardsOf(st.Block()) {
+				if bo, ok := g.Cond.(*ssa.BinOp); ok && isNilConst(bo.Y) && ((bo.Op == token.EQL && g.True) || (bo.Op == token.NEQ && !g.True)) {
+					for _, oo := range p.origins(bo.X, originOpts{}) {
+						if loadsField(oo, smF) {
+							fresh = true
+						}
+					}
+				}
+			}
+		}
+	}
 	r.check(fromOpt && fresh && !other, "NewServer/serve-mux-reused", h2c.Pos(), "the served ServeMux is the one HTTPHandlerOption filled, a fresh one only if none exists",
 		"the ServeMux that is served is not {options' ServeMux | a fresh one exactly when that is nil}: handlers added with HTTPHandlerOption are dropped")
 	// the Handle calls use the same value
